@@ -9,7 +9,7 @@ class F:
     def __init__(self, name, rel, sig, c, props, nth=0, within=None, dflt="", ret_ref=False,
                  ctor=None, rules=(), pre=(), harness=None, enforce=True, rec=False,
                  body_override=None, note="", must_fire=(), extra_replace=(), no_replace=(),
-                 defaulted=None, default_body=None):
+                 defaulted=None, default_body=None, unwind=None):
         self.name, self.rel, self.sig, self.c, self.props = name, rel, sig, c, list(props)
         self.nth, self.within, self.dflt, self.ret_ref = nth, within, dflt, ret_ref
         self.ctor, self.rules, self.pre = ctor, list(rules), list(pre)
@@ -19,6 +19,8 @@ class F:
         # a special member that the source may declare `= default`: then default_body (the synthesised memberwise
         # operation, rule D1/D3) is verified instead of an extracted body
         self.defaulted, self.default_body = defaulted, default_body
+        # loops whose trip count is bounded by a declared array size are unwound completely (with unwinding assertions)
+        self.unwind = unwind
         self.loops = []
         self.text = None
         self.line = None
